@@ -7,7 +7,7 @@ Local Open Scope Z_scope.
 (* copies represent the same list of tuples as the source, in their own block, and leave
    the source record untouched; since a vector's bytes live in its own record, later
    operations on one cannot change what the other represents (independence) *)
-Theorem C09_copy_construction : forall L, wf_plist L = true -> all_triv L = true ->
+Theorem C09_copy_construction : forall L, wf_plist L = true -> all_triv L = true -> all_ctriv false L = true ->
   forall K src l junk nb, Rep L src l ->
   let '(d, src', evs, nb') := copy_ctor K L src junk nb in
   Rep L d l /\ src' = src /\ v_aid d = soccc K (v_aid src) /\
@@ -15,7 +15,7 @@ Theorem C09_copy_construction : forall L, wf_plist L = true -> all_triv L = true
 Proof. exact copy_ctor_spec. Qed.
 Print Assumptions C09_copy_construction.
 
-Theorem C09_copy_assignment : forall L, wf_plist L = true -> all_triv L = true ->
+Theorem C09_copy_assignment : forall L, wf_plist L = true -> all_triv L = true -> all_ctriv false L = true ->
   forall K d src l junk nb, Rep L src l ->
   let '(d', src', evs, nb') := copy_assign K L d src junk nb in
   Rep L d' l /\ src' = src /\
